@@ -83,8 +83,8 @@ class Evaluator:
             return v.isnone
         if isinstance(v, (VInt, VBool, VStr, VTuple, VList, VPy, VFn)):
             return z3.BoolVal(False)
-        if isinstance(v, VMap):
-            return v.t == 0
+        if isinstance(v, (VMap, VAny)):
+            return v.t == 0             # an opaque value may be None: None is the value 0 of every reference-like sort
         raise OutOfSubset('is None of %r' % (v,))
 
     def identical(self, st, a, b):
@@ -250,6 +250,15 @@ class Evaluator:
             return a
         if isinstance(a, VPy) and isinstance(b, VPy):
             return VRef(z3.If(c, self.eng.intern(a.obj), self.eng.intern(b.obj)), None)
+        if isinstance(a, (VOpt, VNoneT)) and isinstance(b, (VOpt, VNoneT)) and not (isinstance(a, VNoneT) and isinstance(b, VNoneT)):
+            # None / optional value: an optional whose none-flag follows the condition
+            oa = a if isinstance(a, VOpt) else VOpt(z3.BoolVal(True), b.val)
+            ob = b if isinstance(b, VOpt) else VOpt(z3.BoolVal(True), a.val)
+            return VOpt(z3.If(c, oa.isnone, ob.isnone), self.ite(st, c, oa.val, ob.val))
+        if isinstance(a, VOpt) or isinstance(b, VOpt):
+            o, x, flip = (a, b, False) if isinstance(a, VOpt) else (b, a, True)
+            ox = VOpt(z3.BoolVal(False), x)
+            return self.ite(st, c, ox, o) if flip else self.ite(st, c, o, ox)
         raise OutOfSubset('conditional expression of %s / %s' % (kind_of(a), kind_of(b)))
 
     def ev_BoolOp(self, st, e):
